@@ -124,6 +124,11 @@ pub enum Op {
     /// release the owner through `Instrumented::from_parts((), owner).emit()` - for the keep-alive
     /// protocol the same as dropping it
     EmitOwner,
+    /// release the owner through one of the other `Instrumented` routes (k % 6): instrument +
+    /// finalize_metrics + emit, Result + on_error / on_success + emit, discard_metrics,
+    /// into_parts, split_metrics_to, instrument_async (polled to completion) + emit - each ends
+    /// with the owner dropped exactly once, so for the keep-alive protocol all equal a plain drop
+    ReleaseVia(u8),
     /// a flush guard of the entry handed (`delay_flush`) to a SlotGuard whose own Slot is already
     /// gone: the SlotGuard is a plain holder of the guard, the entry waits for it like for any
     /// other flush guard
@@ -185,7 +190,8 @@ impl Model {
             | Op::Mutate(_)
             | Op::IntoHandle
             | Op::DropOwner
-            | Op::EmitOwner => self.owner_alive,
+            | Op::EmitOwner
+            | Op::ReleaseVia(_) => self.owner_alive,
             Op::ReplaceHeldGuard(i) => self.owner_alive && (i as usize) < self.flush_guards.len(),
             Op::DropFlushGuard(i) => (i as usize) < self.flush_guards.len(),
             Op::DropForceGuard(i) => (i as usize) < self.force_guards,
@@ -218,7 +224,7 @@ impl Model {
             }
             Op::CloneHandle => self.handles += 1,
             Op::DropHandle(_) => self.handles -= 1,
-            Op::DropOwner | Op::EmitOwner => self.owner_alive = false,
+            Op::DropOwner | Op::EmitOwner | Op::ReleaseVia(_) => self.owner_alive = false,
             Op::AddViaHandle(_, k) => self.c += k as u64,
         }
     }
@@ -294,6 +300,44 @@ impl Real {
             Op::DropHandle(i) => drop(self.handles.remove(i as usize)),
             Op::DropOwner => drop(self.owner.take()),
             Op::EmitOwner => metrique::instrument::Instrumented::from_parts((), self.owner.take().unwrap()).emit(),
+            Op::ReleaseVia(k) => {
+                use metrique::instrument::Instrumented;
+                let o = self.owner.take().unwrap();
+                match k % 6 {
+                    0 => {
+                        // the closures see the entry but (here) leave it as it is
+                        let v = Instrumented::instrument(o, |m| m.a).finalize_metrics(|v, m| assert_eq!(*v, m.a)).emit();
+                        std::hint::black_box(v);
+                    }
+                    1 => {
+                        let r: metrique::instrument::Result<u64, u64, _> =
+                            Instrumented::instrument(o, |m| if k & 64 == 0 { Ok(m.a) } else { Err(m.a) });
+                        let _ = r.on_error(|e, m| assert_eq!(*e, m.a)).on_success(|v, m| assert_eq!(*v, m.a)).emit();
+                    }
+                    2 => Instrumented::from_parts((), o).discard_metrics(),
+                    3 => {
+                        let ((), m) = Instrumented::from_parts((), o).into_parts();
+                        drop(m);
+                    }
+                    4 => {
+                        let mut target = None;
+                        Instrumented::from_parts((), o).split_metrics_to(&mut target);
+                        drop(target);
+                    }
+                    _ => {
+                        let fut = Instrumented::instrument_async(o, async |m: &mut UowGuard<CountSink>| m.a);
+                        let mut fut = std::pin::pin!(fut);
+                        let w = std::task::Waker::noop();
+                        let mut cx = std::task::Context::from_waker(w);
+                        match fut.as_mut().poll(&mut cx) {
+                            std::task::Poll::Ready(i) => {
+                                i.emit();
+                            }
+                            std::task::Poll::Pending => unreachable!("a future without await points"),
+                        }
+                    }
+                }
+            }
             Op::AddViaHandle(i, k) => self.handles[i as usize].c.add(k as u64),
         }
     }
@@ -320,9 +364,12 @@ pub fn run_sequence(ops: &[Op]) -> Result<(Model, Real, Classes), Fail> {
             Op::NewFlushGuardInDetachedSlotGuard => classes.push("flush-guard-held-by-a-detached-slot-guard"),
             Op::NewFlushGuardInWaitSlotGuard | Op::NewFlushGuardInLazySlotGuard => classes.push("flush-guard-parked-by-slot-open-wait"),
             Op::ReplaceHeldGuard(_) => classes.push("held-guard-replaced"),
-            Op::DropOwner | Op::IntoHandle | Op::EmitOwner if !m.flush_guards.is_empty() => classes.push("guard-outlives-owner"),
+            Op::DropOwner | Op::IntoHandle | Op::EmitOwner | Op::ReleaseVia(_) if !m.flush_guards.is_empty() => classes.push("guard-outlives-owner"),
             Op::AddViaHandle(..) => classes.push("mutation-through-handle-after-owner-gone"),
             _ => {}
+        }
+        if matches!(op, Op::ReleaseVia(_)) {
+            classes.push("owner-released-through-an-instrumented-combinator");
         }
         m.apply(*op);
         STEP.with(|s| s.set(1000 + i as u64));
@@ -719,6 +766,7 @@ pub fn arb_op() -> impl Strategy<Value = Op> {
         2 => (0u8..4).prop_map(Op::DropHandle),
         1 => Just(Op::DropOwner),
         1 => Just(Op::EmitOwner),
+        1 => any::<u8>().prop_map(Op::ReleaseVia),
         2 => (0u8..4, 1u8..50).prop_map(|(i, k)| Op::AddViaHandle(i, k)),
         // guards of any age, not only the oldest ones
         1 => (0u8..40).prop_map(Op::DropFlushGuard),
@@ -734,11 +782,11 @@ pub fn run(ctx: &mut Ctx) {
     ctx.explore(
         SubCfg::new(
             "c06-random",
-            "random op sequences up to length 60 (unbounded numbers of guards/handles), single-threaded, model compared after every op; flush guards are held plainly, by a SlotGuard whose slot is gone (delay_flush), by Slot::open(Wait(..)) / LazySlot::open(.., Wait(..)) guards, and holders get their guard replaced; the leftovers are dropped in a generated order, in 20% of the cases while the dropping thread unwinds from a panic. Non-trivial as in the exhaustive sub-check",
+            "random op sequences up to length 60 (unbounded numbers of guards/handles), single-threaded, model compared after every op; flush guards are held plainly, by a SlotGuard whose slot is gone (delay_flush), by Slot::open(Wait(..)) / LazySlot::open(.., Wait(..)) guards, and holders get their guard replaced; the owner is released by a plain drop, Instrumented::emit or one of the other Instrumented routes (instrument + finalize_metrics, Result + on_error / on_success, discard_metrics, into_parts, split_metrics_to, instrument_async); the leftovers are dropped in a generated order, in 20% of the cases while the dropping thread unwinds from a panic. Non-trivial as in the exhaustive sub-check",
             if q { 30_000 } else { 1_000_000 },
         )
         .threads(ctx.tier.pick(8, 16))
-        .mandatory(&["force-drop-while-flush-guards-alive", "guard-created-after-force-drop", "guard-outlives-owner", "final-drops-while-unwinding", "mutation-through-handle-after-owner-gone", "flush-guard-held-by-a-detached-slot-guard", "flush-guard-parked-by-slot-open-wait", "held-guard-replaced"]),
+        .mandatory(&["force-drop-while-flush-guards-alive", "guard-created-after-force-drop", "guard-outlives-owner", "final-drops-while-unwinding", "mutation-through-handle-after-owner-gone", "flush-guard-held-by-a-detached-slot-guard", "flush-guard-parked-by-slot-open-wait", "held-guard-replaced", "owner-released-through-an-instrumented-combinator"]),
         || {
             (prop::collection::vec(arb_op(), 0..60), prop::collection::vec(any::<u8>(), 0..12), prop::bool::weighted(0.2)).prop_map(|(ops, order, unwinding)| SeqCase {
                 ops,
@@ -771,7 +819,7 @@ pub fn run(ctx: &mut Ctx) {
                     // keep something alive for the threads to drop (a force-guard drop in the prefix is kept in
                     // every third case: guards created after it do not hold the entry)
                     let keep_force_drop = threads % 3 == 0;
-                    ops.retain(|o| !matches!(o, Op::DropOwner | Op::EmitOwner) && (keep_force_drop || !matches!(o, Op::DropForceGuard(_))));
+                    ops.retain(|o| !matches!(o, Op::DropOwner | Op::EmitOwner | Op::ReleaseVia(_)) && (keep_force_drop || !matches!(o, Op::DropForceGuard(_))));
                     SeqCase {
                         ops,
                         threads,
